@@ -325,7 +325,7 @@ func main() {
 			backend = "memory"
 		}
 		// ---- fake source
-		ln, err := net.Listen("tcp", "127.0.0.1:0")
+		ln, err := hx.Listen()
 		if err != nil {
 			hx.Fatal("%v", err)
 		}
